@@ -57,13 +57,19 @@ fn is_io_err(r: &Result<String, DigestError>) -> bool {
 /// hash_file under every schedule equals the standard digest of the whole content; hex is lower
 /// case, two characters per byte; a hard error is returned, never hashed past
 pub fn h_file() {
-    let a = sym::choose("alg", 6);
-    let content = sym::any_bytes("content", "bytes", 0, sym::bound(3, 6));
+    // the streaming code is one generic body shared by all six algorithms: the read schedule is
+    // explored for two of them, the algorithm dimension in h_file_algs
+    let a = if sym::choose("alg", 2) == 0 { 1 } else { 5 };
+    let content = sym::any_bytes("content", "bytes", 0, sym::bound(3, 5));
     let mut r = Sched::new(&content, sym::bound(3, 4), true);
     let got = alg_of(a).hash_file(&mut r);
-    let want = sym::digest_hex(a, &content);
-    sym::cover("hard-error", r.failed);
-    if r.failed {
+    check_file(a, &content, r.failed, got);
+}
+
+fn check_file(a: usize, content: &[u8], failed: bool, got: Result<String, DigestError>) {
+    let want = sym::digest_hex(a, content);
+    sym::cover("hard-error", failed);
+    if failed {
         sym::check("C13/read-error-returned", is_io_err(&got));
     } else {
         sym::cover("hashed", got.is_ok());
@@ -81,6 +87,15 @@ pub fn h_file() {
             Err(_) => sym::check("C13/file-digest-ok", false),
         }
     }
+}
+
+/// every algorithm, short contents, one interrupted and one short read
+pub fn h_file_algs() {
+    let a = sym::choose("alg", 6);
+    let content = sym::any_bytes("content", "bytes", 0, sym::bound(2, 3));
+    let mut r = Sched::new(&content, 1, false);
+    let got = alg_of(a).hash_file(&mut r);
+    check_file(a, &content, false, got);
 }
 
 /// the string entry point gives the same digest
